@@ -165,6 +165,25 @@ example : check (.select [.mk none (.col ["b", "x"])] [.rel (some "s") "t" (some
 example : check (.select [.mk none (.col ["q", "z"])]
     [.subq false (.select [.mk (some "y") .leaf] [] [] [] []) "q" []] [] [] []) = false := by decide
 
+/-- `relctx.unpack_var`: `FROM p, ROWS FROM (unnest(p.arr) AS (_t0, _t1)) u1,
+    ROWS FROM (unnest(ARRAY[_t1]) AS (_t2, _t3)) u2` — the inner unnest uses the column `_t1`
+    that the outer one defines; `swap` puts the inner one first. -/
+def exUnpack (swap : Bool) : Query :=
+  let p := FromItem.subq false (.select [.mk (some "arr") .leaf] [] [] [] []) "p" []
+  let u1 := FromItem.func false [.node [.col ["p", "arr"]]] "u1" (some ["_t0", "_t1"])
+  let u2 := FromItem.func false [.node [.col ["_t1"]]] "u2" (some ["_t2", "_t3"])
+  .select [.mk none (.col ["_t0"]), .mk none (.col ["_t3"])]
+    (if swap then [p, u2, u1] else [p, u1, u2]) [] [] []
+
+example : check (exUnpack false) = true := by decide
+/-- K: `qry.from_clause.insert(0, …)` → `append(…)` in `unpack_var`: a function in FROM is implicitly
+    LATERAL but sees PRECEDING items only. -/
+example : check (exUnpack true) = false := by decide
+example : ¬ WellScoped (exUnpack true) := fun h => by
+  have := check_complete _ h
+  revert this
+  decide
+
 /-- `WITH c1 AS (SELECT $1 AS v), c2 AS (SELECT k.v AS w FROM c1 AS k) SELECT c2.w FROM c2 LIMIT $2` -/
 def exCtes (swap : Bool) : Query :=
   let c1 := Cte.mk "c1" [] (.select [.mk (some "v") (.param 1)] [] [] [] [])
